@@ -250,3 +250,151 @@ def order_key() -> str:
             f"Definition unique_names_sorted : bool := {b(has_call('meta_table.py', 'to_csv', is_names_sort))}.\n"
             f"Definition fetch_sequence_upper : bool := {b(has_call('sge_utils.py', 'fetch_sequence', is_upper))}.\n"
             f'Definition custom_variant_upper_calls : nat := {upper_vcf}.\n')
+
+
+def _enum_values(rel: str, cls: str) -> dict[str, str]:
+    tree = ast.parse(_src(rel))
+    for node in tree.body:
+        if isinstance(node, ast.ClassDef) and node.name == cls:
+            out = {}
+            for st in node.body:
+                if isinstance(st, ast.Assign) and len(st.targets) == 1 and isinstance(st.targets[0], ast.Name) \
+                        and isinstance(st.value, ast.Constant) and isinstance(st.value.value, str):
+                    out[st.targets[0].id] = st.value.value
+            return out
+    raise FactError(f'{rel}: enum {cls} not found')
+
+
+def _table_refs(node, tables: dict[str, str]) -> list[str]:
+    """DbTableName.X attributes under node -> table names."""
+    out = []
+    for n in ast.walk(node):
+        if isinstance(n, ast.Attribute) and isinstance(n.value, ast.Name) and n.value.id == 'DbTableName':
+            if n.attr not in tables:
+                raise FactError(f'unknown DbTableName.{n.attr}')
+            out.append(tables[n.attr])
+    return out
+
+
+WRITE_SQL = re.compile(r'^\s*(?:insert\s+into|update|delete\s+from)\s+(\w+)', flags=re.I)
+
+
+@extractor('DbTables')
+def db_tables() -> str:
+    """C13: which tables exist, which are cleared per contig / per targeton, which are written while a targeton is processed."""
+    tables = _enum_values('db.py', 'DbTableName')
+    ddl = open(os.path.join(common.SRC, 'valiant', 'data', 'ddl.sql')).read()
+    ddl_tables = re.findall(r'^create\s+table\s+(\w+)', ddl, flags=re.M | re.I)
+    ddl_views = re.findall(r'^create\s+view\s+(\w+)', ddl, flags=re.M | re.I)
+    if not ddl_tables:
+        raise FactError('no create table in ddl.sql')
+    dbt = ast.parse(_src('db.py'))
+    sets = {}
+    for node in dbt.body:
+        tgt = None
+        if isinstance(node, ast.AnnAssign) and isinstance(node.target, ast.Name):
+            tgt, val = node.target.id, node.value
+        elif isinstance(node, ast.Assign) and len(node.targets) == 1 and isinstance(node.targets[0], ast.Name):
+            tgt, val = node.targets[0].id, node.value
+        if tgt in ('PER_CONTIG_TABLES', 'PER_TARGETON_TABLES'):
+            if not isinstance(val, (ast.List, ast.Set)):
+                raise FactError(f'{tgt} is not a list/set literal')
+            sets[tgt] = _table_refs(val, tables)
+            if len(sets[tgt]) != len(val.elts):
+                raise FactError(f'{tgt} has elements that are not DbTableName members')
+    if set(sets) != {'PER_CONTIG_TABLES', 'PER_TARGETON_TABLES'}:
+        raise FactError('PER_CONTIG_TABLES / PER_TARGETON_TABLES not found')
+    # queries.py: module-level SQL constants -> table written; clear scripts
+    q = ast.parse(_src('queries.py'))
+    const_writes: dict[str, list[str]] = {}
+    for node in q.body:
+        tgt = val = None
+        if isinstance(node, ast.Assign) and len(node.targets) == 1 and isinstance(node.targets[0], ast.Name):
+            tgt, val = node.targets[0].id, node.value
+        elif isinstance(node, ast.AnnAssign) and isinstance(node.target, ast.Name) and node.value is not None:
+            tgt, val = node.target.id, node.value
+        if tgt is None:
+            continue
+        if isinstance(val, ast.Constant) and isinstance(val.value, str):
+            m = WRITE_SQL.match(val.value)
+            if m:
+                const_writes[tgt] = [m.group(1)]
+        elif isinstance(val, ast.Call) and isinstance(val.func, ast.Attribute) and _names(val.func.value) == 'SqlQuery' \
+                and val.func.attr in ('get_insert_values', 'get_insert_names', 'get_insert', 'get_update', 'get_delete'):
+            refs = _table_refs(val.args[0], tables) if val.args else []
+            if len(refs) != 1:
+                raise FactError(f'queries.{tgt}: table of the write statement not recognised')
+            const_writes[tgt] = refs
+    # call graph over the modules that run while a targeton is processed (name based: an over-approximation)
+    mods = ['sge_proc.py', 'targeton.py', 'queries.py', 'meta_table.py', 'cdna_proc.py']
+    calls: dict[str, set[str]] = {}
+    writes: dict[str, set[str]] = {}
+    for rel in mods:
+        for node in ast.walk(ast.parse(_src(rel))):
+            if isinstance(node, (ast.FunctionDef, ast.AsyncFunctionDef)):
+                cs, ws = calls.setdefault(node.name, set()), writes.setdefault(node.name, set())
+                for n in ast.walk(node):
+                    if isinstance(n, ast.Call):
+                        f = n.func
+                        if isinstance(f, ast.Name):
+                            cs.add(f.id)
+                        elif isinstance(f, ast.Attribute):
+                            cs.add(f.attr)
+                            if _names(f.value) == 'SqlQuery' and f.attr in ('get_update', 'get_delete', 'get_insert', 'get_insert_values', 'get_insert_names'):
+                                ws.update(_table_refs(n.args[0], tables) if n.args else [])
+                    if isinstance(n, ast.Name) and n.id in const_writes:
+                        ws.update(const_writes[n.id])
+                    if isinstance(n, ast.Constant) and isinstance(n.value, str):
+                        m = WRITE_SQL.match(n.value)
+                        if m:
+                            ws.add(m.group(1))
+
+    def reach(root: str) -> list[str]:
+        if root not in calls:
+            raise FactError(f'function {root} not found')
+        seen, todo = set(), [root]
+        while todo:
+            f = todo.pop()
+            if f in seen or f not in calls:
+                continue
+            seen.add(f)
+            todo += list(calls[f])
+        return sorted(set(t for f in seen for t in writes.get(f, ())))
+
+    def first_calls(rel: str, func: str, k: int) -> list[str]:
+        for node in ast.walk(ast.parse(_src(rel))):
+            if isinstance(node, ast.FunctionDef) and node.name == func:
+                out = []
+                body = [st for st in node.body if not (isinstance(st, ast.Expr) and isinstance(st.value, ast.Constant))]
+                for st in body[:k]:
+                    if isinstance(st, ast.Expr) and isinstance(st.value, ast.Call) and isinstance(st.value.func, ast.Attribute) \
+                            and st.value.func.attr == 'execute' and _names(st.value.func.value):
+                        out.append(st.value.func.value.id)
+                    else:
+                        out.append('<other>')
+                return out
+        raise FactError(f'{rel}: function {func} not found')
+
+    # the clear scripts delete from exactly the two sets
+    clears = {}
+    for node in q.body:
+        if isinstance(node, ast.Assign) and len(node.targets) == 1 and _names(node.targets[0]) in ('clear_per_contig_tables', 'clear_per_targeton_tables'):
+            src = ast.unparse(node.value)
+            m = re.fullmatch(r'SqlScript\.from_queries\(map\(SqlQuery\.get_delete, (\w+)\)\)', src)
+            if not m:
+                raise FactError(f'{_names(node.targets[0])} is not SqlScript.from_queries(map(SqlQuery.get_delete, ...))')
+            clears[_names(node.targets[0])] = m.group(1)
+    if clears != {'clear_per_contig_tables': 'PER_CONTIG_TABLES', 'clear_per_targeton_tables': 'PER_TARGETON_TABLES'}:
+        raise FactError(f'clear scripts not recognised: {clears}')
+    sl = lambda l: '[' + '; '.join(coq_str(x) for x in l) + ']'
+    return ('From Coq Require Import String List.\nImport ListNotations.\nLocal Open Scope string_scope.\n'
+            'Definition fact_extracted : bool := true.\n'
+            f'Definition ddl_tables : list string := {sl(ddl_tables)}.\n'
+            f'Definition ddl_views : list string := {sl(ddl_views)}.\n'
+            f"Definition per_contig_tables : list string := {sl(sets['PER_CONTIG_TABLES'])}.\n"
+            f"Definition per_targeton_tables : list string := {sl(sets['PER_TARGETON_TABLES'])}.\n"
+            f"Definition sge_targeton_writes : list string := {sl(reach('proc_targeton'))}.\n"
+            f"Definition sge_contig_writes : list string := {sl(reach('proc_contig'))}.\n"
+            f"Definition sge_proc_targeton_first : list string := {sl(first_calls('sge_proc.py', 'proc_targeton', 1))}.\n"
+            f"Definition sge_proc_contig_first : list string := {sl(first_calls('sge_proc.py', 'proc_contig', 1))}.\n"
+            f"Definition cdna_proc_targeton_first : list string := {sl(first_calls('cdna_proc.py', 'proc_targeton', 2))}.\n")
